@@ -521,9 +521,115 @@ def translate_vec(repo):
     return [("DuneVerif/Gen/C17Vec.lean", "\n".join(out) + "\n")]
 
 
+# ---------------------------------------------------------------------------------------------------------
+# eq_t_std_vec / eq_t_fvec: the component loops of the vector comparisons and the derived eq_t specialisations -> Gen/C17EqVec.lean
+# ---------------------------------------------------------------------------------------------------------
+def eqvec_loop(src, kind):
+    what = "eq_t_%s" % kind
+    if kind == "std_vec":
+        head = r"template\s*<\s*class\s+T\s*,\s*CmpStyle\s+cstyle\s*>\s*struct\s+eq_t_std_vec"
+    else:
+        head = r"template\s*<\s*class\s+T\s*,\s*int\s+n\s*,\s*CmpStyle\s+cstyle\s*>\s*struct\s+eq_t_fvec"
+    body = _struct_body(src, head, what)
+    m = re.search(r"static\s+bool\s+eq\s*\(\s*const\s+V\s*&\s*first\s*,\s*const\s+V\s*&\s*second\s*,\s*typename\s+EpsilonType<V>::Type\s+epsilon\s*=\s*"
+                  r"DefaultEpsilon<V>::value\(\)\s*\)\s*\{(.*)\}\s*$", body, flags=re.S)
+    td = re.search(r"typedef\s+(.*?)\s+V\s*;|using\s+V\s*=\s*(.*?)\s*;", body)
+    want = "std::vector<T>" if kind == "std_vec" else "FieldVector<T,n>"
+    if not m or not td or _squash(td.group(1) or td.group(2)).replace("Dune::", "") != want:
+        raise TranslateError("%s: typedef V / signature of eq(first, second, epsilon) changed" % what)
+    code = m.group(1)
+    fm = re.search(r"for\s*\(", code)
+    if not fm:
+        raise TranslateError("%s: no for loop" % what)
+    pre = [_squash(x) for x in code[:fm.start()].split(";") if x.strip()]
+    loop = re.fullmatch(r"for\s*\(\s*(?:unsigned\s+int|int|unsigned|std::size_t|size_t)\s+i\s*=\s*(\d+)\s*;\s*i\s*(<|<=)\s*([^;]+?)\s*;\s*(\+\+i|i\+\+)\s*\)"
+                        r"\s*\{?\s*if\s*\(\s*!\s*(.*?)\)\s*\{?\s*return\s+false\s*;\s*\}?\s*\}?\s*return\s+true\s*;", code[fm.start():].strip(), flags=re.S)
+    if not loop:
+        raise TranslateError("%s: loop is not `for(i = LO; i < HI; ++i) if(!CALL) return false; return true;`: %r" % (what, code[fm.start():]))
+    lo, rel, hi, _, call = loop.groups()
+    size_names = {"first.size()"}
+    sizecheck = False
+    if kind == "std_vec":
+        for d in pre:
+            dm = re.fullmatch(r"(?:const)?(?:unsignedint|unsigned|auto|std::size_t|size_t)(\w+)=first\.size\(\)", d)
+            if dm:
+                size_names.add(dm.group(1))
+                continue
+            cm = re.fullmatch(r"if\((.+?)!=(.+?)\)returnfalse", d)
+            if cm and ((cm.group(1) in size_names and cm.group(2) == "second.size()") or (cm.group(2) in size_names and cm.group(1) == "second.size()")):
+                sizecheck = True
+                continue
+            raise TranslateError("%s: unknown statement before the loop: %r" % (what, d))
+    else:
+        size_names = {"n"}
+        if pre:
+            raise TranslateError("%s: statements before the loop: %r" % (what, pre))
+    hs = _squash(hi)
+    hm = re.fullmatch(r"(.+?)(?:([-+])(\d+))?", hs)
+    if hs in size_names:
+        hi_lean = "first.length"
+    elif hm and hm.group(1) in size_names and hm.group(2):
+        hi_lean = "(first.length %s %s)" % (hm.group(2), hm.group(3))
+    else:
+        raise TranslateError("%s: loop bound %r is not the size of the first operand (+- a constant)" % (what, hi))
+    if rel == "<=":
+        hi_lean = "(%s + 1)" % hi_lean
+    cm = re.fullmatch(r"eq_t<T,(\w+)>::eq\((first|second)\[i\],(first|second)\[i\],(\w+)\)", _squash(call))
+    if not cm or cm.group(2) == cm.group(3) or cm.group(4) != "epsilon":
+        raise TranslateError("%s: loop test is not `!eq_t<T, CS>::eq(first[i], second[i], epsilon)`: %r" % (what, call))
+    cs = cm.group(1)
+    cs_lean = "cstyle" if cs == "cstyle" else (".%s" % cs if cs in STYLES else None)
+    if cs_lean is None:
+        raise TranslateError("%s: style passed to the component comparison: %r" % (what, cs))
+    test = "allLoop %s %s (fun i => eq_t %s (%s.getD i 0) (%s.getD i 0) epsilon)" % (lo, hi_lean, cs_lean, cm.group(2), cm.group(3))
+    if sizecheck:
+        test = "if first.length != second.length then false else\n  " + test
+    lean = ("def eq_t_%s (eq_t : Style → K → K → K → Bool) (cstyle : Style) (first second : List K) (epsilon : K) : Bool :=\n  %s" % (kind, test))
+    return lean, re.sub(r"\s+", " ", code.strip())
+
+
+def eqvec_specialisations(src, kind):
+    tab = {}
+    for st in STYLES:
+        if kind == "std_vec":
+            pat = (r"template\s*<\s*class\s+T\s*>\s*struct\s+eq_t\s*<\s*std::vector<\s*T\s*>\s*,\s*%s\s*>\s*:\s*(?:public\s+)?(\w+)\s*<\s*T\s*,\s*(\w+)\s*>\s*\{\s*\}\s*;" % st)
+        else:
+            pat = (r"template\s*<\s*class\s+T\s*,\s*int\s+n\s*>\s*struct\s+eq_t\s*<\s*(?:Dune::)?FieldVector<\s*T\s*,\s*n\s*>\s*,\s*%s\s*>\s*:\s*(?:public\s+)?(\w+)\s*<\s*T\s*,\s*n\s*,\s*(\w+)\s*>\s*\{\s*\}\s*;" % st)
+        ms = re.findall(pat, src)
+        if len(ms) != 1:
+            raise TranslateError("eq_t<%s of T, %s> : helper<...> {} not found exactly once" % (kind, st))
+        helper, to = ms[0]
+        if helper != "eq_t_%s" % kind or to not in STYLES:
+            raise TranslateError("eq_t vector specialisation for %s derives from %s<.., %s>" % (st, helper, to))
+        tab[st] = to
+    return tab
+
+
+def translate_eqvec(repo):
+    src = strip_comments(open(os.path.join(repo, "dune/common/float_cmp.cc")).read())
+    out = ["-- GENERATED by tools/translators/tr_c17.py from dune/common/float_cmp.cc (vector overloads of eq_t) -- do not edit",
+           "import DuneVerif.Model.C17",
+           "namespace DV.C17.GenEqVec",
+           "open DV.C17",
+           "",
+           "variable {K : Type} [Zero K]", ""]
+    for kind in ("std_vec", "fvec"):
+        lean, code = eqvec_loop(src, kind)
+        out.append("/-- `eq_t_%s<…>::eq` : `%s` -/" % (kind, code))
+        out.append(lean)
+        tab = eqvec_specialisations(src, kind)
+        out.append("/-- `eq_t<%s, style>` for the three compare styles: the helper each specialisation derives from -/" % ("std::vector<T>" if kind == "std_vec" else "FieldVector<T,n>"))
+        out.append("def eq_%s (eq_t : Style → K → K → K → Bool) : Style → List K → List K → K → Bool" % kind)
+        for st in STYLES:
+            out.append("  | .%s => eq_t_%s eq_t .%s" % (st, kind, tab[st]))
+        out.append("")
+    out += ["end DV.C17.GenEqVec"]
+    return [("DuneVerif/Gen/C17EqVec.lean", "\n".join(out) + "\n")]
+
+
 if __name__ == "__main__":
     import sys
     repo = sys.argv[1] if len(sys.argv) > 1 else "/repo"
-    for p, c in translate(repo) + translate_rt(repo) + translate_vec(repo):
+    for p, c in translate(repo) + translate_rt(repo) + translate_eqvec(repo) + translate_vec(repo):
         print("-----", p)
         print(c)
